@@ -12,7 +12,7 @@ use tracing::{debug, info, warn};
 use crate::common::h11c::h11c_handshake;
 use crate::common::quic::{create_quic_frames, create_quic_server, quic_frames_thread, QuicStream};
 use crate::common::tls::TlsServerConfig;
-use crate::context::{make_buffered_stream, ContextRef};
+use crate::context::{make_buffered_stream, ContextRef, ContextRefOps};
 use crate::listeners::Listener;
 use crate::GlobalState;
 
@@ -114,14 +114,18 @@ impl QuicListener {
             let this = self.clone();
             let conn = conn.clone();
             let sessions = sessions.clone();
-            tokio::spawn(
-                h11c_handshake(ctx, queue.clone(), |_ch, id| async move {
+            let queue = queue.clone();
+            tokio::spawn(async move {
+                let res = h11c_handshake(ctx.clone(), queue, |_ch, id| async move {
                     Ok(create_quic_frames(conn, id, sessions).await)
                 })
-                .unwrap_or_else(move |e| {
-                    warn!("{}: h11c handshake error: {}: {:?}", this.name, e, e.cause)
-                }),
-            );
+                .await;
+                if let Err(e) = res {
+                    warn!("{}: h11c handshake error: {}: {:?}", this.name, e, e.cause);
+                    // the connection has a record: end it as an error
+                    ctx.on_error(e).await;
+                }
+            });
         }
     }
 }
